@@ -405,10 +405,16 @@ Mon_C28(hp, rp, r) ==
 (***************************************************************************)
 MaxApplied(r) == LET S == {ND(r, n).applied : n \in NodeIds(r)} IN CHOOSE m \in S : \A o \in S : m >= o
 ReadVal(c) == IF c.read = <<>> THEN "-" ELSE c.read[1][2]
-Mon_C11(hn, r) ==
+Mon_C11(hn, rp, r) ==
   LET cr == Evs(r, "ClientResp")
   IN {V("C11", "LinearizableRead", r,
-        IF ND(r, cr[j].node).role = "L" /\ ND(r, cr[j].node).lease
+        \* an acknowledgement delivered in this very step released the read on a deposed leader whose lease had
+        \* expired before the step: the acknowledgement says nothing about leadership after the read arrived
+        IF ND(r, cr[j].node).role = "L" /\ r.a.a = "DeliverAR" /\ r.a.to = cr[j].node
+           /\ ND(rp, cr[j].node).up /\ ~ND(rp, cr[j].node).lease
+           /\ \E m \in Leaders(rp) : ND(rp, m).term > ND(rp, cr[j].node).term
+        THEN "deposed-leader-confirmed-by-stale-ack"
+        ELSE IF ND(r, cr[j].node).role = "L" /\ ND(r, cr[j].node).lease
            /\ \E m \in Leaders(r) : ND(r, m).term > ND(r, cr[j].node).term
         THEN "deposed-leader-with-valid-lease"
         \* Path B of the leader (handle_apply_completed): a queued read is answered when the state machine reaches
@@ -489,7 +495,7 @@ Monitors(hp, hn, rp, r) ==
   \cup Mon_C05(hp, hn, rp, r) \cup Mon_C06(hp, hn, rp, r) \cup Mon_C07(hn, rp, r) \cup Mon_C08(hn, rp, r)
   \cup Mon_C09(hn, rp, r) \cup Mon_Client(hp, hn, r) \cup Mon_C14(hn, r) \cup Mon_C31(hp, hn, r)
   \cup Mon_C26(hn, rp, r) \cup Mon_C27(hp, hn, rp, r) \cup Mon_C28(hp, rp, r)
-  \cup Mon_C11(hn, r) \cup Mon_C12(hp, hn, rp, r) \cup Mon_C30(r) \cup Mon_C32(hn, r) \cup Mon_C33(hn, rp, r)
+  \cup Mon_C11(hn, rp, r) \cup Mon_C12(hp, hn, rp, r) \cup Mon_C30(r) \cup Mon_C32(hn, r) \cup Mon_C33(hn, rp, r)
 
 (***************************************************************************)
 (* Layer 2: conformance of the observed step with the DECore operators.     *)
